@@ -58,7 +58,7 @@ Definition cenv (cfg : ccfg) (vs : list oval) (inval : N) : env :=
                            | Some (DBuf size _ u8), Some (VBuf cells _) =>
                                if ((0 <=? i) && (i <? Z.of_nat size))%Z then
                                  Some (match nth_error cells (Z.to_nat i) with
-                                       | Some (Some b) => Some (if u8 then (TU8, Z.of_N b) else (TI8, wrap TI8 (Z.of_N b)))
+                                       | Some (Some b) => Some (TU8, Z.of_N b)   (* read through a (uint8_t) cast, char or u8 storage alike *)
                                        | _ => None end)
                                else None
                            | _, _ => None end;
